@@ -10,6 +10,7 @@ import (
 	"math/rand"
 	"sort"
 	"strings"
+	"sync"
 	"time"
 
 	"github.com/DrmagicE/gmqtt"
@@ -702,9 +703,81 @@ func directed() History {
 	return h
 }
 
+// longConnection: a session whose last connection lasted longer than its expiry interval survives a crash like
+// any other: the interval counts from the end of the connection (here: the crash), not from its beginning.
+// Real time: expiry 2 s, connected for 2.6 s, reconnect right after the restart.
+func longConnection(r *monitor.Run) {
+	env, err := redisx.NewEnv()
+	if err != nil {
+		r.Inconclusive(err.Error())
+		return
+	}
+	defer env.Close()
+	b, err := redisBroker(env.Srv.Addr())
+	if err != nil {
+		r.Inconclusive(err.Error())
+		return
+	}
+	e := uint32(2)
+	mk := func() *mqttx.Packet {
+		return &mqttx.Packet{ClientID: "long", CleanStart: false, Props: &mqttx.Props{SessionExpiry: &e}}
+	}
+	c, err := wire.Dial("long", b.Addr, mqttx.V5)
+	if err != nil {
+		r.Inconclusive(err.Error())
+		b.Stop(step)
+		return
+	}
+	if _, err := c.Connect(mk(), step); err != nil {
+		r.Inconclusive(err.Error())
+		b.Stop(step)
+		return
+	}
+	_, _ = c.Subscribe([]mqttx.Sub{{Filter: "long/#", QoS: 1}}, 0, step)
+	time.Sleep(2600 * time.Millisecond)
+	state := env.Srv.Snapshot() // the broker dies here
+	go func() { c.Close(); b.Stop(step) }()
+	srv2, err := fakeredis.Start()
+	if err != nil {
+		r.Inconclusive(err.Error())
+		return
+	}
+	defer srv2.Close()
+	srv2.Restore(state)
+	t0 := time.Now()
+	b2, err := redisBroker(srv2.Addr())
+	if err != nil {
+		r.Violation("startup.error", "broker does not start on the store of a broker that died with a connected client: "+err.Error(), nil)
+		return
+	}
+	defer b2.Stop(step)
+	c2, err := wire.Dial("long2", b2.Addr, mqttx.V5)
+	if err != nil {
+		r.Inconclusive(err.Error())
+		return
+	}
+	defer c2.Close()
+	ack, err := c2.Connect(mk(), step)
+	r.Eval(1)
+	r.Count("long_connection_restarts", 1)
+	if time.Since(t0) > 1200*time.Millisecond {
+		r.Inconclusive("longConnection: restart and reconnect took too long")
+		return
+	}
+	if err != nil || ack.Code != 0 || !ack.SessionPresent {
+		r.Violation("session.expired_at_restart:connected_longer_than_expiry", fmt.Sprintf("session with expiry 2 s whose connection had lasted 2.6 s when the broker died: reconnect right after the restart gets %v %v, want session present", ack, err), nil)
+		return
+	}
+	r.Nontrivial("long-connection")
+}
+
 // Run is the entry point.
 func Run(r *monitor.Run) {
 	r.Level = "fault_enumeration"
+	var lc sync.WaitGroup
+	lc.Add(1)
+	go func() { defer lc.Done(); longConnection(r) }()
+	defer lc.Wait()
 	nh := r.Pick(4, 120)
 	rng := r.Rand("histories")
 	for hi := 0; hi < nh; hi++ {
